@@ -26,6 +26,8 @@ PRES = [
     {"fmt": "%.4f", "data_width": 1000, "data_section_header": "~A"},
     {"fmt": "%.6f", "data_width": 12},
     {"fmt": "%.3f", "len_numeric_field": 12, "spacer": " ", "data_width": 79},
+    {"fmt": "%.1f", "len_numeric_field": -1},                      # unpadded fields narrower than the NULL marker
+    {"fmt": "%.0f", "len_numeric_field": -1, "lhs_spacer": "", "spacer": "  "},
 ]
 WILD = [0.0, -0.0, 1.0, -1.0, 5e-324, 2.2250738585072014e-308, 1e-300, 1e-10, 0.1, 0.3, 1 / 3.0, 2.5, 3.5, 123456.789, 1e5, 1e15, 1e16,
         9007199254740993.0, 1e22, 1.797e308, 1e300, -1e300, -999.25, -999.2500001, 999.25, 0.000015, 0.499999, 0.5,
@@ -156,6 +158,26 @@ def data_event(inst, rng, prop="C01"):
     return ev
 
 
+def slim_data(ev):
+    """The event as validated: without the bulky text; rows listed once per distinct (mask row, verdict row) pair -- the
+    clauses of Trace_RoundTrip!TData quantify universally over the listed rows, so duplicates add nothing."""
+    e = {k: v for k, v in ev.items() if k not in ("text", "opts")}
+    cells = ev["obs"]["cells"]
+    if cells and len(cells) == len(ev["mask"]):
+        seen, m2, c2 = set(), [], []
+        for mr, cr in zip(ev["mask"], cells):
+            key = (tuple(mr), tuple(cr))
+            if key not in seen:
+                seen.add(key)
+                m2.append(mr)
+                c2.append(cr)
+        e["mask"] = m2
+        e["obs"] = dict(ev["obs"], cells=c2)
+    else:
+        e["mask"] = ev["mask"][:1]          # shape not recovered: the cell clauses are not evaluated
+    return e
+
+
 # ---------------------------------------------------------------- C03
 ITEMS = [
     ("A", "", "", ""),
@@ -178,6 +200,10 @@ ITEMS = [
     ("T", "", "x", ""),
     ("LNG", "u", "v" * 300, "d" * 300),
     ("MNEMONIC_LONGER_THAN_ANY_WIDTH_0123456789", "", "1", "x"),
+    ("SERIAL", "", "9007199254740993", "2**53 + 1 - not a float"),
+    ("I63", "", "9223372036854775807", "largest 64-bit integer"),
+    ("N63", "", "-9223372036854775808", "smallest 64-bit integer"),
+    ("P64", "", "18446744073709551616", "2**64 - beyond 64 bits, exactly a float"),
 ]
 
 
@@ -188,10 +214,12 @@ def canon(v):
     if isinstance(v, (int, float, np.integer, np.floating)):
         if isinstance(v, (float, np.floating)) and v != v:
             return "nan"
-        d = Decimal(repr(float(v))) if isinstance(v, (float, np.floating)) else Decimal(int(v))
+        d = Decimal(int(v)) if (isinstance(v, (int, np.integer)) and -2 ** 63 <= int(v) < 2 ** 63) else Decimal(repr(float(v)))
         return "#" + format(d.normalize(), "f")
     s = str(v)
     t = s.strip()
+    if re.fullmatch(r"[+-]?\d+", t) and -2 ** 63 <= int(t) < 2 ** 63:
+        return "#" + str(int(t))            # integer literals that fit 64 bits are compared exactly (no detour through float)
     if re.fullmatch(r"[+-]?(\d+\.?\d*|\.\d+)([eE][+-]?\d+)?", t):
         try:
             return "#" + format(Decimal(repr(float(t))).normalize(), "f")
@@ -356,12 +384,18 @@ def cycle(text, kw, n, read_kw=None):
         s = io.StringIO()
         try:
             las.write(s, **{k: (dict(v) if isinstance(v, dict) else v) for k, v in kw.items()})
-            las = lasio.read(s.getvalue(), **read_kw)
         except Exception as e:
             if i == 0:
                 return None, None          # not "an input lasio can read and then write"
             out.append("EXC")
-            info["first_difference"] = "%s: %s" % (type(e).__name__, str(e)[:100])
+            info["first_difference"] = "write: %s: %s" % (type(e).__name__, str(e)[:100])
+            break
+        try:
+            las = lasio.read(s.getvalue(), **read_kw)
+        except Exception as e:             # lasio cannot read what it wrote: an observation, not a reason to skip
+            out.append("EXC")
+            info["first_difference"] = "re-read %d: %s: %s" % (i + 1, type(e).__name__, str(e)[:100])
+            info["unreadable_output"] = s.getvalue()[:1500]
             break
         d, secs = content_digest(las)
         arrays = [arr_digest(c.data) for c in list.__iter__(las.curves)]
